@@ -416,7 +416,7 @@ pub fn run(ctx: &Ctx) -> Report {
         rep.case(&(kind, wbits, storage, len, depth));
         rep.exhaustive(&format!("{} u{} storage#{} array length {}: all {} op sequences of length <= {}", kind.name(), wbits, storage, len, count, depth));
         // long random sequences over longer arrays
-        for _ in 0..ctx.pick(2, 40, 2000) {
+        for _ in 0..ctx.pick(2, 300, 3000) {
             let l = rng.below(12) as usize;
             let a: Vec<u128> = (0..l).map(|_| (rng.next() as u128) << 64 | rng.next() as u128).collect();
             let n = 1 + rng.below(ctx.pick(10, 80, 300)) as usize;
